@@ -509,7 +509,8 @@ def _check_dhist(ctx, case):
                     x = pd.intensities_4d.copy()
                 exp_r, exp_c = ref.com(x)
                 try:
-                    pd.preprocess(com_fit_function=fit, plot_rotation=False, plot_com=False, vectorized=vec)
+                    kw = {"force_com_rotation": 0.0, "force_com_transpose": False} if st_.get("force_orientation") else {}
+                    pd.preprocess(com_fit_function=fit, plot_rotation=False, plot_com=False, vectorized=vec, **kw)
                     cm, cf = _np64(pd.com_measured), _np64(pd.com_fit)
                 except Exception as e:  # noqa: BLE001
                     import traceback
@@ -556,9 +557,9 @@ MODES = ["bilinear", "nearest", "bicubic"]
 
 
 def search(ctx):
-    core.run_given(ctx, "com", gd.com_cases(), lambda c: check(ctx, c), ctx.n(1300, 15000))
-    core.run_given(ctx, "fit", gd.fit_cases(), lambda c: check(ctx, c), ctx.n(900, 10000))
-    core.run_given(ctx, "shift", gd.shift_cases(), lambda c: check(ctx, c), ctx.n(600, 8000))
+    core.run_given(ctx, "com", gd.com_cases(), lambda c: check(ctx, c), ctx.n(1100, 15000))
+    core.run_given(ctx, "fit", gd.fit_cases(), lambda c: check(ctx, c), ctx.n(800, 10000))
+    core.run_given(ctx, "shift", gd.shift_cases(), lambda c: check(ctx, c), ctx.n(500, 8000))
     core.run_given(ctx, "ohist", gd.origin_history_cases(), lambda c: check(ctx, c), ctx.n(500, 6000))
     core.run_given(ctx, "dhist", gd.dataset_history_cases(), lambda c: check(ctx, c), ctx.n(300, 3000))
     # every detector side length, every interpolation mode: enumerated, not sampled (a wrap-around that
